@@ -68,6 +68,31 @@ def abort_clause(A: Analysis, t: ast.Try) -> Optional[ast.ExceptHandler]:
     return None
 
 
+def rule_sg11(A: Analysis, rep):
+    """SG11: the signal dispositions are set in exactly two places (the termination handlers at start-up, the SIGCHLD
+    handler around the run); nothing else ignores, defers or replaces them (an ignored SIGINT/SIGTERM is lost for good)."""
+    allowed = {("conductor.errors.signal.register_signal_handlers", "signal.SIGINT"), ("conductor.errors.signal.register_signal_handlers", "signal.SIGTERM"),
+               ("conductor.utils.sigchld.SigchldHelper.track", "signal.SIGCHLD")}
+    seen = set()
+    for f in A.prog.functions.values():
+        if f.fq.startswith("conductor.envs") or f.fq.startswith("conductor.explorer"):
+            continue
+        for c in walk_local(f.node):
+            if isinstance(c, ast.Call) and norm(c.func) in ("signal.signal", "signal.pthread_sigmask", "signal.sigprocmask", "signal.siginterrupt", "signal.set_wakeup_fd"):
+                sig = norm(c.args[0]) if c.args else "?"
+                key = (f.fq, sig)
+                seen.add(key)
+                if norm(c.func) != "signal.signal" or key not in allowed:
+                    rep.bad("SG11", "signal disposition changed in %s" % f.fq.replace("conductor.", ""), c,
+                            "`%s` — outside the two confirmed installation points; a signal that is ignored or masked here never reaches the abort handler" % norm(c)[:80])
+                elif key[1] in ("signal.SIGINT", "signal.SIGTERM") and len(c.args) > 1 and norm(c.args[1]) in ("signal.SIG_IGN", "signal.SIG_DFL"):
+                    rep.bad("SG11", "termination signals not handled", c, "`%s`" % norm(c))
+                else:
+                    rep.ok("SG11", "signal disposition site %s/%s" % (f.fq.rsplit(".", 1)[1], sig.rsplit(".", 1)[-1]), c, "confirmed installation point")
+    rep.check({k for k in allowed if k[1] != "signal.SIGCHLD"} <= seen, "SG11", "termination handlers are installed", None, "", "SIGINT/SIGTERM handlers are no longer installed by register_signal_handlers", deep=False)
+    rep.expect_min("SG11", 3)
+
+
 def rule_sg1(A: Analysis, rep):
     cm = A.fn("utils.user_code.cli_command.command_main")
     g = A.cfg(cm, "plain")
